@@ -109,10 +109,19 @@ func (cs c03Case) build(e *Engine, fresh *uint64) Tx {
 			m.Body[[]int{3, 0, 2, 1}[v%4]] = byte(1 + v%200)
 		}
 		if mask&B4Messenger != 0 {
-			if v%2 == 0 {
+			switch v % 5 {
+			case 0:
 				m.Sender = Messenger(m.Src^1, 0)
-			} else {
+			case 1:
 				m.Sender = Structured32(0x44)
+			case 2: // the registered messenger with the ASCII case bit of one byte flipped
+				m.Sender = append([]byte(nil), Messenger(m.Src, 0)...)
+				m.Sender[8+v%20] ^= 0x20
+			case 3: // ... with a high byte replaced by another high byte
+				m.Sender = append([]byte(nil), Messenger(m.Src, 0)...)
+				m.Sender[0], m.Sender[1] = 0xff, 0xfe
+			case 4: // ... shifted by one byte
+				m.Sender = append([]byte{0}, Messenger(m.Src, 0)[:31]...)
 			}
 		}
 		if mask&B5Pair != 0 {
